@@ -91,6 +91,24 @@ Proof.
   - apply obsv_eqb_spec, H, Hk.
 Qed.
 
+Lemma prefix_b_spec : forall a b, prefix_b a b = true <-> exists rest, b = a ++ rest.
+Proof.
+  induction a as [|x a IH]; intro b; cbn [prefix_b].
+  - split; [intros _; exists b; reflexivity|reflexivity].
+  - destruct b as [|y b].
+    + split; [discriminate|intros [rest H]; discriminate].
+    + rewrite andb_true_iff, IH, N.eqb_eq. split.
+      * intros [E [rest H]]; subst; exists rest; reflexivity.
+      * intros [rest H]; inversion H; subst; split; [reflexivity|exists rest; reflexivity].
+Qed.
+
+Lemma wal_acked_durable_b_spec : forall appended acked replayed,
+  wal_acked_durable_b appended acked replayed = true <-> wal_acked_durable appended acked replayed.
+Proof.
+  intros; unfold wal_acked_durable_b, wal_acked_durable.
+  rewrite andb_true_iff, prefix_b_spec, Nat.leb_le. reflexivity.
+Qed.
+
 (** * Refutation witnesses *)
 
 (** F13: a transaction of two entries whose second entry finds the memtable full: the
